@@ -14,7 +14,7 @@ PID = 'C02'
 ARITY = {'tet': 4, 'hex': 8, 'prism': 6, 'tet2': 10}
 BASE_NAMES = ['displacement', 'Displacement', 'disp', 'DISPLACEMENT_', 'DISP', 'DISPLACEMENT', 'REACTION_FORCE', 'NodalSTRESS', 'NodalSTRAIN', 'NodalMISES', 'TEMPERATURE',
               'ElementalSTRAIN', 'ElementalSTRESS', 'ElementalMISES', 'VELOCITY', 'x', 'E1', 'GaussSTRAINE2',
-              'a_b', 'Q9', 'ContactNFORCE']
+              'a_b', 'Q9', 'ContactNFORCE', '*Aux']
 
 
 def tok(x):
@@ -331,6 +331,86 @@ From FV.C02.gen Require Import ResCfg.
 Theorem C02_series_single_ok : series_single_ok = true.
 Proof. reflexivity. Qed.
 """
+PAT_OK_V = """From Coq Require Import String List.
+From FV.C02 Require Import Model Regex.
+From FV.C02.gen Require Import ResRegex.
+(* the patterns of the tree under test are the ones whose meaning Regex.v proves *)
+Theorem C02_patterns_tie :
+  name_re_split = name_re_expected /\\ name_re_parse = name_re_expected /\\ exp_re = exp_re_expected.
+Proof. repeat split; reflexivity. Qed.
+(* hence, on EVERY line, the tree's patterns decide the model's predicates *)
+Theorem C02_patterns_decide :
+  (forall l, re_search name_re_split l = is_name_line l)
+  /\\ (forall l, re_search name_re_parse l = is_name_line l)
+  /\\ (forall l, re_search exp_re l = has_exp l).
+Proof.
+  destruct C02_patterns_tie as [-> [-> ->]].
+  repeat split; intros; first [apply name_re_is_name_line | apply exp_re_is_has_exp].
+Qed.
+Print Assumptions C02_patterns_decide.
+"""
+
+
+def patterns_tie(ctx, cfg, degraded):
+    """(1) translator validation: the generated Coq regexes, evaluated in Coq, decide the same as
+    Python's re.search with the pattern text of the source, on seeded strings; (2) per-run
+    obligation C02_patterns_tie / C02_patterns_decide.  A tree whose patterns are not the registered
+    ones is not a violation: the region falls back to H (widened correspondence)."""
+    pats = cfg['patterns']
+    rng = ctx.rng
+    base = ['', ' ', 'E', 'E+', 'E-', 'E+-5', 'E-+5', 'E+5', 'E-5', 'E5', 'e+05', '1.0E+00', '1.0e+00', '-3.5E-01 2.0E+01',
+            '*x', '*', ' abc', 'abc', 'Zz', '[', '`', '{', '@', 'A', 'z', '0', '9a', '+E5', 'EE5', 'E+E5', '1.0E', 'E +5',
+            'DISPLACEMENT', 'ElementalSTRAIN', '3 6 1', '12', ' 7', 'TOTALTIME', '*data', '1.0E+', 'NaN', 'Infinity', '-E1']
+    strs = list(base)
+    alphabet = 'E+-0123456789eE.* aZ[`{@\\t'
+    while len(strs) < 260:
+        strs.append(''.join(rng.choice(alphabet) for _ in range(rng.randint(0, 7))))
+    strs = [x for x in dict.fromkeys(strs) if all(32 <= ord(ch) < 127 or ch == '\t' for ch in x) and '\t' not in x]
+    txt = list(HEADER) + ['From FV.C02 Require Import Regex.', 'From FV.C02.gen Require Import ResRegex.']
+    n_bad_py = 0
+    for k in ('name_re_split', 'name_re_parse', 'exp_re'):
+        pat = pats[k][0]
+        items = [f"({i}, Bool.eqb (re_search {k} {cS(x)}) {'true' if re.search(pat, x) else 'false'})"
+                 for i, x in enumerate(strs)]
+        txt.append(f'Definition v_{k} : list (nat * bool) := {lib.coq_list(items)}.')
+        txt.append(f'Goal True. idtac "@@ {k}". Abort.')
+        txt.append(f'Eval vm_compute in map fst (filter (fun c => negb (snd c)) v_{k}).')
+    rc, out, err = ctx.coq_eval('PatVal', '\n'.join(txt) + '\n')
+    val_bad = {}
+    if rc != 0:
+        val_bad = {'compile': err[-300:]}
+    else:
+        for k in ('name_re_split', 'name_re_parse', 'exp_re'):
+            b = failing(out, k)
+            if b:
+                val_bad[k] = [strs[i] for i in b[:5]]
+    ctx.notes['pattern_translator_validation'] = {'strings': len(strs), 'patterns': {k: pats[k][0] for k in pats},
+                                                  'disagreements': val_bad}
+    if val_bad:
+        # the translator (or Regex.re_search) does not mean what Python's re means: a defect of the check
+        ctx.violation('tie-broken', {'patterns': {k: pats[k][0] for k in pats}, 'disagree_on': val_bad},
+                      'Regex.re_search of the generated pattern = re.search of the source pattern',
+                      'differs', 'translator validation (patterns)', found_input=False,
+                      signature={'kind': 'pattern-translator-validation'})
+    if 'patterns' in degraded:
+        ctx.obligations.append({'name': 'C02_patterns_tie', 'discharged': False, 'assumptions': [],
+                                'note': 'tie of this region is H on this tree (translator could not read the '
+                                        'patterns: ' + degraded['patterns'] + '); widened correspondence'})
+        return False
+    rc, out, err = ctx.coq_eval('PatOk', PAT_OK_V)
+    ok = rc == 0 and 'Closed under the global context' in out
+    note = ''
+    if not ok:
+        note = ('the patterns of the tree under test are not the registered ones ('
+                + ', '.join(f'{k}={pats[k][0]!r}' for k in pats) + '); their meaning is tied by the widened '
+                'correspondence only (H) on this tree')
+        ctx.notes['patterns_tie'] = note
+        ctx.log(note)
+    for nm in ('C02_patterns_tie', 'C02_patterns_decide'):
+        ctx.obligations.append({'name': nm, 'discharged': ok, 'assumptions': [], 'note': note})
+    return ok
+
+
 TOKEN_RE = re.compile(r'^-?\d(\.\d+)?E[+-]\d+$')
 
 HEADER = ['From Coq Require Import ZArith String List. Import ListNotations.',
@@ -656,6 +736,7 @@ def main(ctx):
         cfg, consumed, degraded = c02_cfg.translate(str(lib.REPO))
         ctx.sources = consumed
         lib.write_if_changed(lib.COQ / 'C02' / 'gen' / 'ResCfg.v', c02_cfg.emit(cfg))
+        lib.write_if_changed(lib.COQ / 'C02' / 'gen' / 'ResRegex.v', c02_cfg.emit_patterns(cfg['patterns']))
         for region, why in degraded.items():
             ctx.log(f'translator could not read {region}: {why} -> baseline model + widened correspondence')
     except (c02_cfg.TranslateError, SyntaxError, OSError) as e:
@@ -664,7 +745,7 @@ def main(ctx):
         ctx.notes['translator_error'] = str(e)
     proof_ok = False
     if tie_ok:
-        proof_ok, log = ctx.build_props('C02/Props.v', extra_targets=['C02/Corr.vo'],
+        proof_ok, log = ctx.build_props('C02/Props.v', extra_targets=['C02/Corr.vo', 'C02/gen/ResRegex.vo'],
                                         scan_dirs=[lib.COQ / 'C02', lib.COQ / 'C04'])
         if not proof_ok:
             ctx.notes['build_log_tail'] = log[-1500:]
@@ -683,11 +764,17 @@ def main(ctx):
                                      'result file (see C02_single_file_series_refuted and the replayed input)')
         ctx.obligations.append({'name': 'C02_series_single_ok', 'discharged': single_ok, 'assumptions': [],
                                 'note': note})
-    model_ok = False
-    if tie_ok:
-        model_ok, log, _ = lib.coq_make(['C02/Corr.vo', 'C02/gen/ResCfg.vo'])
+    model_ok = proof_ok
+    if tie_ok and not proof_ok:
+        # the proofs do not check: the model may still build (definitions only)
+        model_ok, log, _ = lib.coq_make(['C02/Corr.vo', 'C02/gen/ResCfg.vo', 'C02/gen/ResRegex.vo'])
         if not model_ok:
             ctx.log('model does not build:', log[-500:])
+    # per-run obligation of the pattern tie + translator validation
+    if tie_ok and model_ok:
+        pat_ok = patterns_tie(ctx, cfg, degraded)
+        if not pat_ok and 'patterns' not in degraded:
+            degraded['patterns'] = ctx.notes.get('patterns_tie', 'patterns differ from the registered ones')
     ctx.notes['series_single_ok'] = cfg['series_single_ok'] if cfg else None
     # S cross-check on solver outputs (one long coqc: runs beside the generated directories)
     from concurrent.futures import ThreadPoolExecutor
@@ -772,6 +859,7 @@ def replay(path):
     try:
         cfg, _, _ = c02_cfg.translate(str(lib.REPO))
         lib.write_if_changed(lib.COQ / 'C02' / 'gen' / 'ResCfg.v', c02_cfg.emit(cfg))
+        lib.write_if_changed(lib.COQ / 'C02' / 'gen' / 'ResRegex.v', c02_cfg.emit_patterns(cfg['patterns']))
         ok, log, _ = lib.coq_make(['C02/Corr.vo', 'C02/gen/ResCfg.vo'])
     except c02_cfg.TranslateError as e:
         print('translator failed closed:', e)
